@@ -453,3 +453,72 @@ func singleCellValue(v ssa.Value) ssa.Value {
 	}
 	return nil
 }
+
+// LoopHeader returns the innermost loop header block (a block with a back edge) that dominates b, or nil.
+func LoopHeader(b *ssa.BasicBlock) *ssa.BasicBlock {
+	var header *ssa.BasicBlock
+	for _, h := range b.Parent().Blocks {
+		if !h.Dominates(b) {
+			continue
+		}
+		isHeader := false
+		for _, pr := range h.Preds {
+			if h.Dominates(pr) {
+				isHeader = true
+			}
+		}
+		if !isHeader {
+			continue
+		}
+		// b must be inside the loop: some back-edge source is reachable from b without leaving through h
+		if !reaches(b, h) {
+			continue
+		}
+		if header == nil || header.Dominates(h) {
+			header = h
+		}
+	}
+	return header
+}
+
+// reaches: can control flow from a reach b (following successors)?
+func reaches(a, b *ssa.BasicBlock) bool {
+	seen := map[*ssa.BasicBlock]bool{}
+	var walk func(x *ssa.BasicBlock) bool
+	walk = func(x *ssa.BasicBlock) bool {
+		for _, s := range x.Succs {
+			if s == b {
+				return true
+			}
+			if !seen[s] {
+				seen[s] = true
+				if walk(s) {
+					return true
+				}
+			}
+		}
+		return false
+	}
+	return walk(a)
+}
+
+// ClosureBinding resolves a free variable of an anonymous function to the value bound at its MakeClosure site.
+func ClosureBinding(fv *ssa.FreeVar) ssa.Value {
+	fn := fv.Parent()
+	if fn == nil || fn.Parent() == nil {
+		return nil
+	}
+	idx := -1
+	for i, x := range fn.FreeVars {
+		if x == fv {
+			idx = i
+		}
+	}
+	var bound ssa.Value
+	ForEachInstr(fn.Parent(), func(in ssa.Instruction) {
+		if mc, ok := in.(*ssa.MakeClosure); ok && mc.Fn == fn && idx >= 0 && idx < len(mc.Bindings) {
+			bound = mc.Bindings[idx]
+		}
+	})
+	return bound
+}
